@@ -9,6 +9,7 @@
   `|IDFT(get_frequency_response) - get_impulse_response| ≤ 2ε`.
 -/
 import PdsVerif.Lemmas.BankTime
+import PdsVerif.Lemmas.BankTimeFourier
 
 namespace PdsVerif.C07
 open PdsVerif PdsVerif.Gen.BankTime PdsVerif.Model.BankTime PdsVerif.BankTimeLemmas
@@ -613,12 +614,9 @@ theorem tri_K_sq {l m r : ℝ} (hl : l < m) (hr : m < r) :
   have : 0 < r - l := by linarith
   positivity
 
-/-- real triangular bank: one image `val(t)/denom` of the closed-form impulse response is bounded by
-`2(w_r-w_l)/((w_c-w_l)(w_r-w_c)·t²·π)` (the bound in the source comment), which is at most the threshold
-as soon as `|t| ≥ K/2` (`K` the real number under `int(np.ceil(.))`) — in particular at every sample
-outside `supports = (-⌈K/2⌉-1, ⌊K/2⌋+1)`. -/
-theorem tri_time_tail {l m r : ℝ} (hl : l < m) (hr : m < r) (t : ℝ) (ht : tri_K l m r / 2 ≤ |t|) :
-    |tri_ir_val l m r (tri_ir_div_term l m r) t / tri_ir_denom false l m r| ≤ threshold := by
+/-- `|t| ≥ K/2` means `t ≠ 0` and `2(r-l) ≤ ε·(m-l)(r-m)·π·t²` -/
+theorem tri_tail_arith {l m r : ℝ} (hl : l < m) (hr : m < r) (t : ℝ) (ht : tri_K l m r / 2 ≤ |t|) :
+    t ≠ 0 ∧ 2 * (r - l) ≤ threshold * ((m - l) * (r - m) * Real.pi * t ^ 2) := by
   have h1 : 0 < m - l := by linarith
   have h2 : 0 < r - m := by linarith
   have h3 : 0 < r - l := by linarith
@@ -633,12 +631,29 @@ theorem tri_time_tail {l m r : ℝ} (hl : l < m) (hr : m < r) (t : ℝ) (ht : tr
     have := pow_le_pow_left₀ (by positivity) ht 2
     rw [sq_abs] at this; linarith [this, show (tri_K l m r / 2) ^ 2 = (tri_K l m r) ^ 2 / 4 by ring]
   rw [tri_K_sq hl hr] at ht2
-  have ht0 : 0 < t ^ 2 := by rw [← sq_abs]; positivity
+  refine ⟨fun h => by rw [h] at htpos; simp at htpos, ?_⟩
+  have hAB : 0 < (m - l) * (r - m) := mul_pos h1 h2
+  have e : 8 * (r - l) / Real.pi / threshold / ((m - l) * (r - m)) / 4 =
+      2 * (r - l) / (Real.pi * threshold * ((m - l) * (r - m))) := by
+    field_simp; ring
+  rw [e, div_le_iff₀ (by positivity)] at ht2
+  nlinarith
+
+/-- real triangular bank: one image `val(t)/denom` of the closed-form impulse response is bounded by
+`2(w_r-w_l)/((w_c-w_l)(w_r-w_c)·t²·π)` (the bound in the source comment), which is at most the threshold
+as soon as `|t| ≥ K/2` (`K` the real number under `int(np.ceil(.))`) — in particular at every sample
+outside `supports = (-⌈K/2⌉-1, ⌊K/2⌋+1)`. -/
+theorem tri_time_tail {l m r : ℝ} (hl : l < m) (hr : m < r) (t : ℝ) (ht : tri_K l m r / 2 ≤ |t|) :
+    |tri_ir_val l m r (tri_ir_div_term l m r) t / tri_ir_denom false l m r| ≤ threshold := by
+  obtain ⟨htt, hle⟩ := tri_tail_arith hl hr t ht
+  have h1 : 0 < m - l := by linarith
+  have h2 : 0 < r - m := by linarith
+  have hp := Real.pi_pos
+  have ht0 : 0 < t ^ 2 := by positivity
   -- closed form of the quotient
   have key : tri_ir_val l m r (tri_ir_div_term l m r) t / tri_ir_denom false l m r =
       ((r - l) * Real.cos (m * t) - (r - m) * Real.cos (l * t) - (m - l) * Real.cos (r * t)) /
         ((m - l) * (r - m) * Real.pi * t ^ 2) := by
-    have htt : t ≠ 0 := by intro h; rw [h] at ht0; simp at ht0
     simp only [tri_ir_val, tri_ir_div_term, tri_ir_denom, transc_cos, transc_pi, Bool.false_eq_true, if_false]
     rw [show ((0.0:ℝ) + 1.0) = 1 by norm_num, one_mul]
     split <;> field_simp
@@ -651,14 +666,7 @@ theorem tri_time_tail {l m r : ℝ} (hl : l < m) (hr : m < r) (t : ℝ) (ht : tr
     have c3 := Real.abs_cos_le_one (r * t)
     rw [abs_le] at c1 c2 c3 ⊢
     constructor <;> nlinarith [c1.1, c1.2, c2.1, c2.2, c3.1, c3.2]
-  refine hN.trans ?_
-  -- 2(r-l) ≤ ε (m-l)(r-m) π t²   from   2(r-l)/(π ε (m-l)(r-m)) ≤ t²
-  have hAB : 0 < (m - l) * (r - m) := mul_pos h1 h2
-  have e : 8 * (r - l) / Real.pi / threshold / ((m - l) * (r - m)) / 4 =
-      2 * (r - l) / (Real.pi * threshold * ((m - l) * (r - m))) := by
-    field_simp; ring
-  rw [e, div_le_iff₀ (by positivity)] at ht2
-  nlinarith
+  exact hN.trans hle
 
 /-- samples outside `supports` satisfy the hypothesis of `tri_time_tail` -/
 theorem tri_outside_support_far (l m r : ℝ) (t : ℤ)
@@ -676,6 +684,116 @@ theorem tri_outside_support_far (l m r : ℝ) (t : ℤ)
       have := le_abs_self (t : ℝ); linarith
   linarith
 
-example : (1:ℝ) < 2 ∧ (2:ℝ) < 3 := by norm_num
+
+/-! ## stretch: the closed form `get_impulse_response` uses for the triangular bank is the inverse
+Fourier integral of the (continuous-frequency) triangle -/
+
+open PdsVerif.BankTimeFourier in
+/-- analytic bank, `t ≠ 0`: `(1/2π)∫_l^r tri(ω)e^{iωt}dω = val(t)/denom`, `val = val_re + i·val_im` as the
+source computes it.  (The buffer then holds `val(k) + conj(val(W-k))`: two images of this function.) -/
+theorem tri_impulse_closed_form {l m r : ℝ} (hl : l < m) (hr : m < r) (t : ℝ) (ht : t ≠ 0) :
+    (1 / (2 * (Real.pi : ℂ))) * ∫ ω in l..r, ((triangle l m r ω : ℝ) : ℂ) * Complex.exp (Complex.I * ω * t) =
+      (((tri_ir_val_re l m r (tri_ir_div_term l m r) t : ℝ) : ℂ) +
+        Complex.I * ((tri_ir_val_im l m r (tri_ir_div_term l m r) t : ℝ) : ℂ)) /
+        ((tri_ir_denom true l m r : ℝ) : ℂ) := by
+  have h1 : m - l ≠ 0 := by linarith
+  have h2 : r - m ≠ 0 := by linarith
+  have hp : (Real.pi : ℂ) ≠ 0 := by exact_mod_cast Real.pi_pos.ne'
+  have htc : (t : ℂ) ≠ 0 := by exact_mod_cast ht
+  have h1c : ((m : ℂ) - l) ≠ 0 := by exact_mod_cast h1
+  have h2c : ((r : ℂ) - m) ≠ 0 := by exact_mod_cast h2
+  have e : ∀ x : ℝ, Complex.exp (Complex.I * x * t) =
+      ((Real.cos (x * t) : ℝ) : ℂ) + ((Real.sin (x * t) : ℝ) : ℂ) * Complex.I := by
+    intro x
+    rw [show Complex.I * x * t = ((x * t : ℝ) : ℂ) * Complex.I by push_cast; ring, Complex.exp_mul_I,
+      Complex.ofReal_cos, Complex.ofReal_sin]
+  rw [integral_triangle_exp hl hr t ht, e, e, e]
+  simp only [tri_ir_val_re, tri_ir_val_im, tri_ir_div_term, tri_ir_denom, transc_cos, transc_sin, transc_pi,
+    if_true]
+  rw [show ((1.0:ℝ) + 1.0) = 2 by norm_num, show (1.0:ℝ) = 1 by norm_num]
+  simp only [one_mul]
+  split <;> (push_cast; field_simp; ring)
+
+open PdsVerif.BankTimeFourier in
+/-- `t = 0`: the extra term added to `res[0]` is the triangle's area over `2π` -/
+theorem tri_impulse_closed_form_zero {l m r : ℝ} (hl : l < m) (hr : m < r) :
+    (1 / (2 * Real.pi)) * ∫ ω in l..r, triangle l m r ω =
+      tri_ir_zero l m r (tri_ir_div_term l m r) / tri_ir_denom true l m r := by
+  have h1 : m - l ≠ 0 := by linarith
+  have h2 : r - m ≠ 0 := by linarith
+  have hp := Real.pi_pos.ne'
+  rw [integral_triangle hl hr]
+  simp only [tri_ir_zero, tri_ir_div_term, tri_ir_denom, transc_pi, if_true]
+  rw [show ((1.0:ℝ) + 1.0) = 2 by norm_num, show (2.0:ℝ) = 2 by norm_num]
+  split <;> (field_simp; ring)
+
+/-- the real bank's value is twice the real part of the analytic one (`h = f + conj f`) -/
+theorem tri_real_eq_two_re (l m r t : ℝ) :
+    tri_ir_val l m r (tri_ir_div_term l m r) t / tri_ir_denom false l m r =
+      2 * (tri_ir_val_re l m r (tri_ir_div_term l m r) t / tri_ir_denom true l m r) := by
+  simp only [tri_ir_val, tri_ir_val_re, tri_ir_denom, transc_cos, transc_pi, Bool.false_eq_true, if_false,
+    if_true]
+  rw [show ((1.0:ℝ) + 1.0) = 2 by norm_num, show ((0.0:ℝ) + 1.0) = 1 by norm_num, show (1.0:ℝ) = 1 by norm_num]
+  simp only [one_mul]
+  ring
+
+open PdsVerif.BankTimeFourier in
+/-- analytic triangular bank: the modulus of one image `val(t)/denom` is at most *half* the threshold
+outside `supports` (triangle inequality on the closed form; `|e^{ix}| = 1`). -/
+theorem tri_time_tail_analytic {l m r : ℝ} (hl : l < m) (hr : m < r) (t : ℝ) (ht : tri_K l m r / 2 ≤ |t|) :
+    ‖(((tri_ir_val_re l m r (tri_ir_div_term l m r) t : ℝ) : ℂ) +
+        Complex.I * ((tri_ir_val_im l m r (tri_ir_div_term l m r) t : ℝ) : ℂ)) /
+        ((tri_ir_denom true l m r : ℝ) : ℂ)‖ ≤ threshold / 2 := by
+  obtain ⟨ht0, hle⟩ := tri_tail_arith hl hr t ht
+  have h1 : 0 < m - l := by linarith
+  have h2 : 0 < r - m := by linarith
+  have h3 : 0 < r - l := by linarith
+  have hp := Real.pi_pos
+  have ht2 : 0 < t ^ 2 := by positivity
+  rw [← tri_impulse_closed_form hl hr t ht0, integral_triangle_exp hl hr t ht0]
+  have hx : ∀ x : ℝ, ‖Complex.exp (Complex.I * x * t)‖ = 1 := by
+    intro x
+    rw [show Complex.I * x * t = ((x * t : ℝ) : ℂ) * Complex.I by push_cast; ring]
+    exact Complex.norm_exp_ofReal_mul_I _
+  have hnum : ‖((r - l : ℝ) : ℂ) * Complex.exp (Complex.I * m * t) - ((r - m : ℝ) : ℂ) * Complex.exp (Complex.I * l * t)
+        - ((m - l : ℝ) : ℂ) * Complex.exp (Complex.I * r * t)‖ ≤ 2 * (r - l) := by
+    refine (norm_sub_le _ _).trans ?_
+    refine (add_le_add_left (norm_sub_le _ _) _).trans ?_
+    simp only [norm_mul, hx, mul_one, Complex.norm_real, Real.norm_eq_abs, abs_of_pos h1, abs_of_pos h2,
+      abs_of_pos h3]
+    linarith
+  have hden : ‖((((m - l) * (r - m) : ℝ) : ℂ) * (t : ℂ) ^ 2)‖ = (m - l) * (r - m) * t ^ 2 := by
+    rw [norm_mul, norm_pow, Complex.norm_real, Complex.norm_real, Real.norm_eq_abs, Real.norm_eq_abs,
+      abs_of_pos (mul_pos h1 h2), sq_abs]
+  have h2pi : ‖(1 / (2 * (Real.pi : ℂ)))‖ = 1 / (2 * Real.pi) := by
+    rw [norm_div, norm_one, norm_mul, Complex.norm_real, Real.norm_eq_abs, abs_of_pos hp]
+    simp
+  rw [norm_mul, h2pi, norm_div, hden]
+  have hD : 0 < (m - l) * (r - m) * t ^ 2 := by positivity
+  calc 1 / (2 * Real.pi) * (‖_‖ / ((m - l) * (r - m) * t ^ 2))
+      ≤ 1 / (2 * Real.pi) * (2 * (r - l) / ((m - l) * (r - m) * t ^ 2)) := by
+        apply mul_le_mul_of_nonneg_left _ (by positivity)
+        exact div_le_div_of_nonneg_right hnum hD.le
+    _ ≤ threshold / 2 := by
+        rw [div_mul_div_comm, one_mul, div_le_div_iff₀ (by positivity) (by norm_num)]
+        nlinarith
+
+/-- instance: vertices `l = 1 < m = 2 < r = 3` (rad/sample) and the first sample right of the support -/
+example : tri_K (1:ℝ) 2 3 / 2 ≤ |(((triSupport (1:ℝ) 2 3).2 + 1 : ℤ) : ℝ)| :=
+  tri_outside_support_far 1 2 3 _ (Or.inr (by omega))
+
+/-! ## further instances of the implications above -/
+
+/-- order 3, `α = 1`: the mode is 2 samples after the onset -/
+example : gt_h_env (1:ℝ) 1 3 0 1 < gt_h_env (1:ℝ) 1 3 0 (0 + (3 - 1) / 1) :=
+  gammatone_env_mode (by norm_num) (by norm_num) 0 1 (by norm_num)
+
+example : gt_h_env (1:ℝ) 1 3 0 4 < gt_h_env (1:ℝ) 1 3 0 3 :=
+  gammatone_env_antitone_beyond_mode (by norm_num) (by norm_num) 0 3 4 (by norm_num) (by norm_num) (by norm_num)
+
+/-- order 4, `α = 1/10` (mode 30): from `right = 40` one Newton step lands at or beyond 50 -/
+example : (40:ℝ) + 1 / (1/10) ≤
+    gt_newton_step ((1/10:ℝ)^4/6) (1/10) 4 40 (gt_newton_h ((1/10:ℝ)^4/6) (1/10) 4 0 40) :=
+  newton_step_moves_right (by norm_num) (by norm_num) (by norm_num) (by norm_num)
 
 end PdsVerif.C07
